@@ -47,6 +47,7 @@ type Decl struct {
 	Pk     bool       `json:"pk,omitempty"`
 	Val    any        `json:"val,omitempty"`
 	Arr    []string   `json:"arr,omitempty"`
+	Lines  []string   `json:"lines,omitempty"`
 	Params []Param    `json:"params,omitempty"`
 	Parts  []Part     `json:"parts,omitempty"`
 	Verb   string     `json:"verb,omitempty"`
@@ -340,6 +341,16 @@ func Render(decls []Decl, lay Layout) *Result {
 		case "stmt":
 			var t string
 			switch d.Kind {
+			case "doc":
+				// a run of docstring lines: the position is that of the first
+				for i, ln := range d.Lines {
+					if i == 0 {
+						set(r.line("| " + ln))
+					} else {
+						r.line("| " + ln)
+					}
+				}
+				continue
 			case "action":
 				t = d.Text
 			case "call":
